@@ -1,5 +1,7 @@
 package main
 
+import "fmt"
+
 // kind "render": {doc:[Node], data:{...}, debug:bool}; impl = {class, out, msg, src?}
 
 func init() {
@@ -31,6 +33,15 @@ func runRender(c Case) interface{} {
 		return J{"class": res.Class, "out": res.Out, "msg": res.Msg, "tok": tokenize(res.Out)}
 	}
 	debug, _ := c["debug"].(bool)
+	if sib := asList(c["siblings"]); len(sib) > 0 {
+		// other page templates in the SAME directory (names sorting before and after "t"): what they define must not leak
+		files := map[string]string{"t": ast}
+		for i, sd := range sib {
+			files[[]string{"a", "u", "m", "z0"}[i%4]+fmt.Sprint(i)] = pugDoc(asList(sd))
+		}
+		res := renderAmong(files, c["data"], debug, nil)
+		return J{"class": res.Class, "out": res.Out, "msg": res.Msg}
+	}
 	res := renderOne(ast, c["data"], debug, nil)
 	return J{"class": res.Class, "out": res.Out, "msg": res.Msg}
 }
